@@ -330,7 +330,8 @@ namespace bluetoe
                             if ( write_size != 1 + 2 * sizeof( std::uint8_t* ) )
                                 return request_error( bluetoe::error_codes::invalid_attribute_value_length );
 
-                                                 start_address = read_address( value +1 );
+                            // start_address and end_address of the controller belong to a flash or read procedure that might be running
+                            const std::uintptr_t start_address = read_address( value +1 );
                             const std::uintptr_t end_address   = read_address( value +1 + sizeof( std::uint8_t* ) );
 
                             if ( start_address > end_address || !MemRegions::acceptable( start_address,end_address ) )
@@ -394,6 +395,12 @@ namespace bluetoe
                         {
                             if ( write_size != 1 + 2 * sizeof( std::uint8_t* ) )
                                 return request_error( bluetoe::error_codes::invalid_attribute_value_length );
+
+                            // the read procedure uses the very same start_address as the flash procedure
+                            in_flash_mode = false;
+
+                            for ( auto& buffer : buffers_ )
+                                buffer.free();
 
                             error         = error_codes::success;
                             start_address = read_address( value +1 );
